@@ -441,6 +441,186 @@ def gen_agg(tier, rng):
     return out
 
 
+
+# ---------------------------------------------------------------------------------------------
+# bhist / bmon: the stored element count around the limits of size_type = smallest_size_t<Capacity>
+# (255 | 256 elements: unsigned char -> unsigned short, 65535 | 65536: unsigned short -> unsigned int); coq/C03/ModelSize.v
+BIG_CAPS = [254, 255, 256, 300, 65536, 70000]
+BIG_FAMS = {
+    # kind: (flavours, capacities); i = int (the trivial storage of static_vector, the defaulted members of inplace_vector)
+    "sv": (["cm", "c", "i"], BIG_CAPS),
+    "iv": (["cm", "c", "i"], BIG_CAPS),
+    "sk": (["cm", "c"], [300, 70000]),
+    "ss": (["cm", "c"], [300, 70000]),
+    "fs": (["cm", "c"], [300, 70000]),
+}
+BIG_OPS = {
+    "sv": ["fil", "pop", "clr", "err", "rsz", "cpc", "mvc", "cpa", "mva", "swp"],
+    "iv": ["fil", "pop", "clr", "cpc", "mvc", "cpa", "mva"],
+    "sk": ["fil", "pop", "cpc", "mvc", "cpa", "mva"],
+    "ss": ["fil", "clr", "err", "cpc", "mvc", "cpa", "mva"],
+    "fs": ["fil", "clr", "err", "cpc", "mvc", "cpa", "mva"],
+}
+
+
+def big_both(fam, cap, ops):
+    body = f"{fam} {cap} {len(ops)} " + " ".join(ops)
+    return ["bhist " + body, "bmon " + body]
+
+
+def big_limits(cap):
+    """the element counts worth reaching: both sides of every limit of an unsigned type, and the capacity"""
+    out = []
+    for lim in (256, 65536):
+        out += [n for n in (lim - 1, lim, lim + 1) if n <= cap]
+    out += [n for n in (cap - 1, cap) if n > 0]
+    return sorted(set(out))
+
+
+class BigSim:
+    """sizes (and the last key of a set) only: steers the generation"""
+
+    def __init__(self, kind, cap, trivial=False):
+        self.kind, self.cap = kind, cap
+        self.clears = kind == "iv" and not trivial     # a moved-from inplace_vector is empty (not with the trivial move operations)
+        self.n = [0, 0]
+        self.top = [0, 0]      # keys handed to a set so far are below top
+
+    def ok(self, op):
+        t = op.split()
+        name = t[0]
+        a = [int(x) for x in t[1:]]
+        n, cap = self.n, self.cap
+        if name == "swp":
+            return True
+        tg = a[0]
+        if name == "fil":
+            return a[1] >= 0 and (self.kind == "ss" or n[tg] + a[1] <= cap)
+        if name == "pop":
+            return 0 <= a[1] <= n[tg]
+        if name == "err":
+            return 0 <= a[1] <= a[2] <= n[tg]
+        if name == "rsz":
+            return 0 <= a[1] <= cap
+        return True
+
+    def apply(self, op):
+        t = op.split()
+        name = t[0]
+        a = [int(x) for x in t[1:]]
+        n = self.n
+        if name == "swp":
+            n[0], n[1] = n[1], n[0]
+            self.top[0], self.top[1] = self.top[1], self.top[0]
+            return
+        tg = a[0]
+        if name == "fil":
+            n[tg] = min(self.cap, n[tg] + a[1])
+            self.top[tg] = max(self.top[tg], a[2] + a[1])
+        elif name == "pop":
+            n[tg] -= a[1]
+        elif name == "clr":
+            n[tg] = 0
+        elif name == "err":
+            n[tg] -= a[2] - a[1]
+        elif name == "rsz":
+            n[tg] = a[1]
+        elif name == "mvc":
+            if self.clears: n[tg] = 0
+        elif name in ("cpa", "mva"):
+            n[tg] = n[1 - tg]
+            self.top[tg] = max(self.top[tg], self.top[1 - tg])
+            if name == "mva" and self.clears: n[1 - tg] = 0
+
+
+def big_history(kind, fl, cap, rng, steps, invalid=False):
+    """a history that walks the element count of object 0 (and through copies object 1) across the limits"""
+    sim = BigSim(kind, cap, fl == "i")
+    ops = []
+    lims = big_limits(cap)
+    names = [o for o in BIG_OPS[kind] if not (fl == "m" and o in ("cpc", "cpa"))]
+
+    def emit(o):
+        ops.append(o)
+        sim.apply(o)
+
+    def reach(t, target):
+        """bring object t to `target` elements by one bulk operation (never element by element)"""
+        n = sim.n[t]
+        if target > n:
+            emit(f"fil {t} {target - n} {sim.top[t] + rng.randint(1, 3)}")
+        elif target < n:
+            how = [o for o in ("pop", "err", "rsz") if o in names]
+            o = rng.choice(how)
+            if o == "pop": emit(f"pop {t} {n - target}")
+            elif o == "rsz": emit(f"rsz {t} {target}")
+            else:
+                f = rng.choice([0, target, rng.randint(0, target)])
+                emit(f"err {t} {f} {f + n - target}")
+
+    for _ in range(steps):
+        t = 0 if rng.random() < 0.75 else 1
+        r = rng.random()
+        if r < 0.5:
+            reach(t, rng.choice(lims))
+        elif r < 0.6 and "rsz" in names:
+            emit(f"rsz {t} {rng.choice(lims)}")
+        else:
+            o = rng.choice([x for x in names if x not in ("fil", "pop", "err", "rsz")])
+            emit("swp" if o == "swp" else f"{o} {t}")
+    if invalid:
+        t = 0
+        n = sim.n[t]
+        bad = [f"fil {t} {cap - n + 1} {sim.top[t] + 1}"]
+        if "pop" in names: bad.append(f"pop {t} {n + 1}")
+        if "err" in names: bad.append(f"err {t} {min(n, 1)} {n + 1}")
+        if "rsz" in names: bad.append(f"rsz {t} {cap + 1}")
+        if kind == "ss": bad = bad[1:]
+        if bad: ops.append(rng.choice(bad))
+    return ops
+
+
+def gen_big(tier, rng):
+    quick = tier == "quick"
+    out = []
+    for kind, (flavours, caps) in BIG_FAMS.items():
+        has = BIG_OPS[kind]
+        for cap in caps:
+            large = cap > 1000
+            for fl in flavours:
+                fam = f"{kind}_{fl}"
+                lims = [n for n in big_limits(cap)]
+                # ---- fixed walks: up to each limit in one bulk step, over it one element at a time, back below it, a copy and a
+                # moved copy at the limit, the destructors with that many elements alive
+                for n in lims:
+                    if large and quick and not (n == 65536 and ((fl == "cm" and (cap == 70000 or kind == "sv")) or (fl == "i" and cap == 70000))):
+                        continue
+                    if n < 2:
+                        continue
+                    down = (["pop 0 1", "pop 0 1"] if "pop" in has else [f"err 0 {n - 1} {n}", "err 0 0 1"])
+                    walk = [f"fil 0 {n - 1} 3", f"fil 0 1 {n + 7}"] + ([f"fil 0 1 {n + 9}"] if n < cap else []) + down
+                    out += big_both(fam, cap, walk + ["cpc 0", "mvc 0"])
+                    if large and quick:
+                        continue
+                    out += big_both(fam, cap, [f"fil 0 {n} 3", "cpa 1", "mva 1"] + (["pop 1 1"] if "pop" in has else ["err 1 0 1"]) + ["mva 0"])
+                    out += big_both(fam, cap, [f"fil 1 {n} 5"])          # only the destructor sees the count
+                    if "clr" in has:
+                        out += big_both(fam, cap, [f"fil 0 {n} 3", "clr 0", "fil 0 2 1"])
+                    if "err" in has:
+                        out += big_both(fam, cap, [f"fil 0 {n} 3", f"err 0 1 {min(n, 3)}", f"err 0 0 {n - 2}"])
+                    if "rsz" in has:
+                        out += big_both(fam, cap, [f"rsz 0 {n}", f"rsz 0 {n - 1}", f"rsz 0 {cap}", "swp", f"rsz 1 {n}"])
+                    if "swp" in has:
+                        out += big_both(fam, cap, [f"fil 0 {n} 3", "fil 1 2 1", "swp", "swp"])
+                    # one element too many / one pop too many: the precondition fires exactly there
+                    out += big_both(fam, cap, [f"fil 0 {cap} 3", "fil 0 1 1"] if kind != "ss" else [f"fil 0 {cap} 3", "fil 0 1 99999", "mvc 0"])
+                # ---- random walks over the limits
+                k = ((1 if rng.random() < 0.1 else 0) if quick else 12) if large else (6 if quick else 120)
+                for _ in range(k):
+                    out += big_both(fam, cap, big_history(kind, fl, cap, rng, rng.randint(3, 5 if large else 9), invalid=rng.random() < 0.1))
+    return out
+
+
 def gen(tier, rng):
     quick = tier == "quick"
     out = []
@@ -537,6 +717,7 @@ def gen(tier, rng):
     out += gen_own(tier, rng)
     out += gen_agg(tier, rng)
     out += gen_pcopy()
+    out += gen_big(tier, rng)
     return out
 
 
@@ -565,6 +746,9 @@ def gen_pcopy():
 
 
 def nontrivial(case, impl):
+    if case.startswith("bhist") or case.startswith("bmon"):
+        t = case.split()
+        return any(t[i] == "fil" and int(t[i + 2]) >= 255 for i in range(4, len(t) - 2)) or any(t[i] == "rsz" and int(t[i + 2]) >= 255 for i in range(4, len(t) - 2))
     if case.startswith("pcopy") or case.startswith("pown"):
         return "C:" in impl
     if case.startswith("uhist") or case.startswith("umon"):
